@@ -318,7 +318,16 @@ func coordinate(prop, tier string) int {
 	} else {
 		// Two passes under a wall-clock budget: first every item with a small cap (the cheap ones finish completely),
 		// then the items that hit it again, sharing what is left of the budget.
-		const firstCap = 20
+		// the first pass must fit into half of the budget even if every scenario used its cap
+		firstCap := 20
+		if len(all) > 0 {
+			if c := int(budget.Seconds() * float64(n) / float64(2*len(all))); c < firstCap {
+				firstCap = c
+			}
+		}
+		if firstCap < 2 {
+			firstCap = 2
+		}
 		enumItems := 0
 		for _, it := range all {
 			if it.Kind == "enum" {
